@@ -294,6 +294,26 @@ Pumps == {
 (*   \A p \in Pumps, n \in PumpCounts : p.inv => Class(parse(Text(p, n))) = Class(parse(Text(p, 1))) *)
 (*   where Text(p, n) = head unit^n mid post^n tail and Class is "value" or "err" (Outcome.tla) *)
 
+(* GAP CHARACTERS: one character of each Unicode general category and every white-space-like  *)
+(* character (XML S, other Unicode white space, controls), given by code point, is inserted      *)
+(* into each GapSeed at every GAP between two tokens (before the first / after the last token   *)
+(* included), in the MIDDLE of every token (names, numbers, literals) and right after the first  *)
+(* character of every token (after '$').  XML white space must behave as a separator; for every  *)
+(* other character the parse may accept or reject (XPST0003), Outcome.tla says what is legal.    *)
+GapChars == { [id |-> "space", cp |-> 32], [id |-> "tab", cp |-> 9], [id |-> "lf", cp |-> 10], [id |-> "cr", cp |-> 13],
+              [id |-> "ff", cp |-> 12], [id |-> "vt", cp |-> 11], [id |-> "us-001f", cp |-> 31], [id |-> "fs-001c", cp |-> 28],
+              [id |-> "nel-0085", cp |-> 133], [id |-> "nbsp", cp |-> 160], [id |-> "ogham-space", cp |-> 5760],
+              [id |-> "en-quad", cp |-> 8192], [id |-> "line-sep-Zl", cp |-> 8232], [id |-> "para-sep-Zp", cp |-> 8233],
+              [id |-> "narrow-nbsp", cp |-> 8239], [id |-> "ideographic-space", cp |-> 12288],
+              [id |-> "zwsp-Cf", cp |-> 8203], [id |-> "bom-Cf", cp |-> 65279], [id |-> "private-Co", cp |-> 57344],
+              [id |-> "unassigned-Cn", cp |-> 888], [id |-> "combining-Mn", cp |-> 769], [id |-> "math-Sm", cp |-> 8721],
+              [id |-> "symbol-So", cp |-> 9731], [id |-> "digit-Nd", cp |-> 1635], [id |-> "letter-Lo", cp |-> 20013],
+              [id |-> "astral-So", cp |-> 128512], [id |-> "del-Cc", cp |-> 127], [id |-> "nonchar-FFFE", cp |-> 65534] }
+GapSeeds == << <<"1", "+", "2">>, <<"$x">>, <<"$x", "+", "$x">>, <<"a", "/", "b", "[", "1", "]">>, <<"count", "(", "a", ")">>,
+              <<"1.5e0", "*", ".5">>, <<"'s'", "=", "\"t\"">>, <<"child", "::", "a">>, <<"p", ":", "a">>,
+              <<"for", "$x", "in", "1", "return", "$x">> >>
+GapPlaces == {"gap", "middle", "after-first"}
+
 (* printed once at start-up: the outcome oracle sets and the mutation plan *)
 ASSUME PrintOracle == /\ PrintT(<<"legal_parse", O!LegalShapes("parse")>>)
                       /\ PrintT(<<"legal_eval", O!LegalShapes("eval")>>)
@@ -303,6 +323,7 @@ ASSUME PrintOracle == /\ PrintT(<<"legal_parse", O!LegalShapes("parse")>>)
 (* hold tuples):  EXTENDS Tokens,  GenLens == <<n1, n2, ...>>  (token counts only) and  *)
 (*   ASSUME \A k \in 1..Len(GenLens) : ExprChosen(k) => PrintT(<<"mut", k, Chosen(k, GenLens[k])>>) *)
 (* The same module prints the seed plan <<"seedmut", k, Seeds[k], MutOps(Len(Seeds[k]), Alphabet)>>  *)
+(* <<"gapchars", GapChars>>, <<"gapseeds", GapSeeds>>, <<"gapplaces", GapPlaces>>,                   *)
 (* <<"stress", Stress>>, <<"pumps", Pumps>> and <<"pump_counts", PumpCounts>>.                     *)
 
 (* self-check vectors for the harness' 1:1 application of descriptors *)
